@@ -41,8 +41,13 @@ RULES = {
     "base name ('' or 'dir/') is refused before the temporary directory is created - otherwise the temporary path is the directory "
     "itself, opening it fails, the cleanup's os.remove fails on it with an error other than FileNotFoundError and the temporary "
     "directory is left behind next to the data",
+    "R11": "the file that is replaced is the file the tensors were matched against: a destination that is a symbolic link is resolved all the "
+    "way (`os.path.realpath`), as `os.path.samefile` does when the tensors backed by the destination are looked for - where the "
+    "single-file writer tests `os.path.islink(<path>)`, what it takes for the destination is `os.path.realpath(<path>)`, and the "
+    "external-data module never resolves one level only (`os.readlink`): with a chain of links the intermediate link would be replaced "
+    "by a regular file, the real file kept its bytes, and the tensors reading from it would be invalidated although it was not replaced",
 }
-FLOORS = {"R1": 5, "R2": 2, "R3": 4, "R4": 3, "R5": 1, "R6": 1, "R7": 1, "R8": 12, "R9": 1, "R10": 1}
+FLOORS = {"R1": 5, "R2": 2, "R3": 4, "R4": 3, "R5": 1, "R6": 1, "R7": 1, "R8": 12, "R9": 1, "R10": 1, "R11": 1}
 EXPLANATION = (
     "Path-taint analysis (temp-derived vs destination-derived) over every file-system call of the single-file "
     "writer, dominator queries for the write → replace → invalidate ordering, try/finally structure of the "
@@ -644,7 +649,37 @@ def rule_r10(ctx):
               how="a rejection on `not os.path.basename(<destination>)` dominates tempfile.mkdtemp", construct="temporary file without a name")
 
 
+def rule_r11(ctx):
+    m = ctx.repo.module("onnx_ir.external_data")
+    f = ctx.repo.func("onnx_ir.external_data:_write_external_data")
+    n = 0
+    for x in own_nodes(f.node):
+        tests = []
+        if isinstance(x, ast.IfExp):
+            tests = [(x.test, x.body, x)]
+        elif isinstance(x, ast.If):
+            tests = [(x.test, st.value, st) for st in x.body if isinstance(st, ast.Assign)]
+        for t, chosen, node in tests:
+            links = [c for c in ast.walk(t) if isinstance(c, ast.Call) and (dotted_of(c.func) or "") == "os.path.islink" and c.args]
+            if not links:
+                continue
+            n += 1
+            ok = isinstance(chosen, ast.Call) and (dotted_of(chosen.func) or "") == "os.path.realpath" and chosen.args and norm(chosen.args[0]) == norm(links[0].args[0])
+            ctx.check("R11", f"_write_external_data: a link destination is resolved with os.path.realpath({norm(links[0].args[0])})", ok, f, node,
+                      f"`{norm(chosen)[:80]}` is what the writer takes for the destination when `{norm(links[0])}` holds: unless that is the fully resolved path, the file that "
+                      "os.replace replaces is not the file `os.path.samefile` matched the tensors against - for a link to a link the intermediate link becomes a regular "
+                      "file, the real data file keeps its bytes and the tensors reading from it are invalidated all the same",
+                      how="the alternative chosen under os.path.islink(p) is os.path.realpath(p)", construct="link destination resolved one level only")
+    one_level = [c for g in m.all_funcs if not isinstance(g.node, ast.Lambda) for c in calls_in(g) if (dotted_of(c.func) or "") in ("os.readlink",)]
+    for c in one_level:
+        ctx.check("R11", "the external-data module resolves links completely", False, f, c,
+                  f"`{norm(c)[:60]}` follows a symbolic link by one level: the path it gives can itself be a link, so what is written or replaced is not the file the "
+                  "tensors are matched against", how="no os.readlink in the external-data module", construct="os.readlink in the external-data module")
+    ctx.require(n >= 1, "_write_external_data: the resolution of a symbolic-link destination was not found")
+
+
 def run(ctx):
+    rule_r11(ctx)
     rule_r10(ctx)
     rule_r9(ctx)
     rule_r8(ctx)
